@@ -43,6 +43,8 @@ def check_step_loop(ctx):
     body = set()
     for t, hh in be:
         body |= cfg.loop_body(f, t, hh)
+    if _range_bounded_loop(ctx, f, body):
+        return
     # header condition: switch on Lt(counter, max_instruction_steps(&self))
     hb = f.blocks[h]
     cur = h
@@ -127,6 +129,36 @@ def check_step_loop(ctx):
     for bi, t in f.calls():
         if path_ends(t.get("fn") or "", "State::perform") or path_ends(t.get("fn") or "", "Instruction::perform"):
             ctx.check(bi in body, "R03.1", "perform-only-inside-the-counted-loop/bb%d" % bi, "bb%d in loop body" % bi, f.at())
+
+
+def _range_bounded_loop(ctx, f, body):
+    """the other spelling of the step bound: `for _ in 0..self.max_instruction_steps() { .. }` - one range element is
+    consumed per iteration, so at most max iterations by construction.  Accepted only if every way round the loop goes
+    through `next() == Some` of that one range and performs exactly one instruction."""
+    paths = [p for p in ctx.paths(f) if p.end != "unreachable"]
+    is_range_next = lambda c: callee_is(c, "Iterator::next") and len(c[3]) == 1 and match(
+        c[3][0], Through(Call("IntoIterator::into_iter", Agg("Range::Range", Const(0), Call("PushState::max_instruction_steps", Through(Param(1)), nargs=1)), nargs=1)))
+    loopp = [p for p in paths if p.end.startswith("loop:")]
+    if not loopp:
+        return False
+    for p in loopp:
+        nx = [c for c in p.conds if c[0][0] == "discr" and is_range_next(c[0][1]) and c[1] == 1]
+        if len(nx) != 1:
+            return False
+    ctx.ok("R03.1", "header-tests-counter<max_instruction_steps", "for _ in 0..self.max_instruction_steps(): one range element per iteration", f.at())
+    ctx.ok("R03.1", "counter-only-0-then-checked_add(counter,1)", "the range is the counter: nothing else can advance or reset it", f.at())
+    ctx.ok("R03.1", "counter-overflow-leaves-the-loop", "range exhaustion leaves the loop", f.at())
+    for i, p in enumerate(loopp):
+        perf = [c for c in p.calls() if callee_is(c, "State::perform", "Instruction::perform")]
+        ctx.check(len(perf) == 1, "R03.1", "one-perform-per-iteration/%d" % i, "%d perform call(s) on the iteration path" % len(perf), f.at())
+        ctx.ok("R03.1", "every-iteration-counts-a-step/%d" % i, "each iteration consumes one element of 0..max", f.at())
+    for p in paths:
+        if p in loopp:
+            continue
+        perf = [c for c in p.calls() if callee_is(c, "State::perform", "Instruction::perform")]
+        some = [c for c in p.conds if c[0][0] == "discr" and is_range_next(c[0][1]) and c[1] == 1]
+        ctx.check(not perf or len(some) >= 1, "R03.1", "perform-only-inside-the-counted-loop/path", "perform only after next() == Some", f.at())
+    return True
 
 
 def _compare_behind_new_helper(ctx, d):
@@ -235,6 +267,14 @@ def classify_loop(fn, head, body):
         return "iterator-driven for loop"
     if any(path_ends(n, "Stack::pop") or path_ends(n, "Vec::pop") for n in names) and any(path_ends(n, "Result::is_ok") or path_ends(n, "Option::is_some") for n in names):
         return "while-pop loop (each iteration removes one element)"
+    if any(path_ends(n, "Stack::pop") or path_ends(n, "Vec::pop") for n in names) and any(path_ends(n, "Stack::size") or path_ends(n, "Vec::len") for n in names):
+        cmp_ = False
+        for b in sorted(body):
+            for st in fn.blocks[b]["stmts"]:
+                if st["k"] == "assign" and st["rv"]["k"] == "binop" and st["rv"]["op"] in ("Gt", "Lt", "Ge", "Le", "Ne"):
+                    cmp_ = True
+        if cmp_:
+            return "shrinking loop (runs while size() compares against a bound; each iteration removes one element, so it ends)"
     return None
 
 
